@@ -266,7 +266,8 @@ def fam_direct(family='direct'):
 
 # --------------------------------------------------------------------------------------- families (thorough extension)
 def fam_pair_full(names, family='pair-full'):
-    """pairs: independent wrappers (3x3), both token orders, declared spelling = used spelling or always absolute."""
+    """pairs: independent wrappers (3x3), both token orders, declared spelling = used spelling; plus declared spelling
+    always absolute (bare tokens only)."""
     U = universe(names)
     wraps = ('bare', 'key', 'sub')
     for p, q in itertools.combinations(U, 2):
@@ -283,17 +284,23 @@ def fam_pair_full(names, family='pair-full'):
                         for wp, wq in itertools.product(wraps, repeat=2):
                             if (wp == 'sub' and mp == 'out') or (wq == 'sub' and mq == 'out'):
                                 continue
+                            if dmode == 'abs' and (wp, wq) != ('bare', 'bare'):
+                                continue
                             tp, tq = ['r', ip, sp, wp], ['r', iq, sq, wq]
                             yield case(family, refs, [tp, tq])
                             yield case(family, refs, [tq, ['l', '-o'], tp])
 
 
 def fam_triple_full(names, family='triple-full'):
-    """triples: every legal spelling combination, one member optionally an :output, all 6 declaration orders."""
+    """triples, all 6 declaration orders: all :ref with every legal spelling combination; first or last member an
+    :output with {all absolute, relative where legal}."""
     U = universe(names)
     for trio in itertools.combinations(U, 3):
+        relmode = tuple('rel' if p[0] == CONSUMER_STAGE else 'abs' for p in trio)
         for mode in itertools.product(*[psp(p) for p in trio]):
-            for outpos in (None, 0, 1, 2):
+            for outpos in (None, 0, 2):
+                if outpos is not None and mode != relmode and any(m != 'abs' for m in mode):
+                    continue    # an :output member only with {all absolute, relative where legal}
                 base = [mkref(p, 'out' if k == outpos else 'ref', s) for k, (p, s) in enumerate(zip(trio, mode))]
                 for order in itertools.permutations(range(3)):
                     refs = [base[i] for i in order]
